@@ -40,6 +40,10 @@ type SchedCase struct {
 	// PriorFails: rules that fail in the earlier call only (pf(@name) panics for them while
 	// the earlier call runs): a failure of an earlier call must leave nothing behind.
 	PriorFails []string `json:"prior_fails,omitempty"`
+	// PriorBuilds > 0: only the first PriorBuilds build groups are installed before the earlier
+	// call; the remaining incremental builds follow between the earlier call and the call
+	// under test (the builder is rebuilt between two executions on an engine that ran it).
+	PriorBuilds int `json:"prior_builds,omitempty"`
 }
 
 // genPrior draws, in a quarter of the cases, an earlier call of any execute method.
@@ -60,6 +64,14 @@ func genPrior(t *rapid.T, c *SchedCase) {
 	}
 	call := fullCall(name, names, uni(t, "prior_salt", 0, 5))
 	call.B = rapid.Bool().Draw(t, "prior_b")
+	if pct(t, "prior_same_call", 45) {
+		// exactly the call under test, issued once before
+		call = c.Call
+		call.Names = append([]string(nil), c.Call.Names...)
+	}
+	if len(c.Builds) >= 2 && pct(t, "prior_then_rebuild", 60) {
+		c.PriorBuilds = uni(t, "prior_builds", 1, len(c.Builds)-1)
+	}
 	c.Prior = &call
 	for i, r := range c.Rules {
 		if pct(t, fmt.Sprintf("prior_fail%d", i), 30) {
@@ -317,13 +329,8 @@ func install(c *SchedCase, env *schedEnv) (*schedTarget, error) {
 				return nil, fmt.Errorf("pool RemoveRules: %v", err)
 			}
 		}
-		for _, grp := range c.Builds[1:] {
-			if err := p.UpdatePooledRulesIncremental(rulesTextOld(c.Rules, grp, c.OldSal)); err != nil {
-				return nil, fmt.Errorf("UpdatePooledRulesIncremental: %v", err)
-			}
-		}
 		t.pool = p
-		return t, nil
+		return t, t.applyBuilds(c, 1, c.buildsBeforePrior())
 	}
 	dc := context.NewDataContext()
 	for k, v := range env.apis() {
@@ -339,14 +346,32 @@ func install(c *SchedCase, env *schedEnv) (*schedTarget, error) {
 			return nil, fmt.Errorf("RemoveRules: %v", err)
 		}
 	}
-	for _, grp := range c.Builds[1:] {
-		if err := rb.BuildRuleWithIncremental(rulesTextOld(c.Rules, grp, c.OldSal)); err != nil {
-			return nil, fmt.Errorf("BuildRuleWithIncremental: %v", err)
-		}
-	}
 	t.rb = rb
 	t.g = engine.NewGengine()
-	return t, nil
+	return t, t.applyBuilds(c, 1, c.buildsBeforePrior())
+}
+
+// buildsBeforePrior is the number of build groups installed before the first call.
+func (c *SchedCase) buildsBeforePrior() int {
+	if c.Prior != nil && c.PriorBuilds > 0 && c.PriorBuilds < len(c.Builds) {
+		return c.PriorBuilds
+	}
+	return len(c.Builds)
+}
+
+// applyBuilds performs the incremental build groups [from, to).
+func (t *schedTarget) applyBuilds(c *SchedCase, from, to int) error {
+	for _, grp := range c.Builds[from:to] {
+		text := rulesTextOld(c.Rules, grp, c.OldSal)
+		if t.pool != nil {
+			if err := t.pool.UpdatePooledRulesIncremental(text); err != nil {
+				return fmt.Errorf("UpdatePooledRulesIncremental: %v", err)
+			}
+		} else if err := t.rb.BuildRuleWithIncremental(text); err != nil {
+			return fmt.Errorf("BuildRuleWithIncremental: %v", err)
+		}
+	}
+	return nil
 }
 
 func (t *schedTarget) invoke(c gx.Call) gx.Result {
@@ -655,6 +680,16 @@ func checkSched(x *Ctx, c *SchedCase) (*models.Input, bool) {
 			return nil, false
 		}
 		env.priorFails = nil
+		if n := c.buildsBeforePrior(); n < len(c.Builds) {
+			x.Class("builder-rebuilt-incrementally-between-two-calls-on-the-same-engine")
+			if c.Prior.Method == c.Call.Method {
+				x.Class("same-call-again-after-an-incremental-rebuild")
+			}
+			if err := tg.applyBuilds(c, n, len(c.Builds)); err != nil {
+				x.Violation("install", "valid generated rule text was rejected: %v", err)
+				return nil, false
+			}
+		}
 		env.log.Reset()
 		env.tag.StopTag = false
 		env.gates.Reopen()
